@@ -153,8 +153,16 @@ package ast
 //@   ghost var g_provided bool = false
 //@   at call jsonparser.Get: ghost g_provided = result3 == nil
 //@   at call Buffer.Write: assert {a.variable.the.request.does.not.provide.is.null.only.if.it.has.no.default.value} value.Kind == ValueKindVariable && !g_provided ==> g_noDefault
+//@   let nFields = len(d.ObjectValues[value.Ref].Refs)
+//@   ghost var g_w int = 0
+//@   ghost var g_l int = 0
+//@   at call Document.ObjectFieldNameBytes: ghost g_w = g_w + 1
+//@   at call? Document.variableDefaultValue: ghost g_l = g_l + ite(value.Kind == ValueKindObject && !result1, 1, 0)
+//@   ensures {a.field.of.an.object.literal.is.left.out.only.for.a.variable.without.value.and.without.default} value.Kind == ValueKindObject && result == nil ==> g_w + g_l == nFields
 //@   modifies *
 //@   safety none
+//@   loop 1:
+//@     invariant g_w + g_l == ii
 
 // C17: a freshly imported input value definition carries no directives (the importer adds them afterwards)
 //@ func Document.AddInputValueDefinition
